@@ -267,11 +267,47 @@ class Session:
             return RawLine("ok\t" + self.state_digest())
         if f[0] == "U":
             return self.unit_op(f[1], f[2:])
+        if f[0] == "N":
+            return self.n_op(f[1], f[2:])
         if f[0] == "X" and f[1] == "ptree" and len(f) == 5:
             return RawLine("ok\ts\t" + show_tree(tree_parser(f[2]).parse(self.arg(f[4]), start=f[3])))
         if f[0] == "X":
             return self.x_op(f[1], [self.arg(t) for t in f[2:]])
         raise Bad(f[0])
+
+    # --- names of the single-name classes (Prefix, Dimension) ---------------------------------
+    @staticmethod
+    def opt(t):
+        return None if t == "-" else ("" if t == "=" else t)
+
+    def n_op(self, op, a):
+        if op == "pfx":
+            b, e = a[0][1:].split(":")
+            p = Prefix(int(b), int(e), self.opt(a[1]), self.opt(a[2]))
+            return RawLine("ok\tp" + self.show_pfx(p))
+        if op == "dim":
+            d = Dimension(tuple(int(x) for x in a[0][1:].split(",")), self.opt(a[1]), self.opt(a[2]))
+            return RawLine("ok\td" + ",".join(istr(e) for e in d.exponents))
+        if op == "dderive":
+            key = tuple(int(x) for x in a[0][1:].split(","))
+            if key not in Dimension._known:
+                raise Unmodelled()
+            d = Dimension.derive(Dimension._known[key], a[1], self.opt(a[2]))
+            return RawLine("ok\td" + ",".join(istr(e) for e in d.exponents))
+        if op == "pstate":
+            # canonical order: anonymous prefixes may have been created (by unit arithmetic) long
+            # before they were named, so `_known` order is not comparable; sort the lines
+            named = "\n".join(sorted("%s|%s|%s" % (self.show_pfx(p), p.name or "-", p.symbol or "-")
+                                     for p in Prefix._known.values() if p.name or p.symbol))
+            bn = "\n".join("%s=%s" % (n, self.show_pfx(p)) for n, p in Prefix._by_name.items())
+            bs = "\n".join("%s=%s" % (n, self.show_pfx(p)) for n, p in Prefix._by_symbol.items())
+            return RawLine("ok\tobjs=%d byName=%d bySym=%d" % (hash_str(named), hash_str(bn), hash_str(bs)))
+        if op == "dstate":
+            named = "\n".join(sorted("%s|%s" % (",".join(istr(e) for e in d.exponents), d.name)
+                                     for d in Dimension._known.values() if d.name))
+            bn = "\n".join("%s=%s" % (n, ",".join(istr(e) for e in d.exponents)) for n, d in Dimension._by_name.items())
+            return RawLine("ok\tobjs=%d byName=%d" % (hash_str(named), hash_str(bn)))
+        raise Bad(op)
 
     def unit_op(self, op, a):
         if op == "info":
